@@ -10,7 +10,7 @@ use serde_json::{json, Value};
 pub fn def() -> PropDef {
     PropDef {
         id: "C12",
-        rule: "set_flags: all 65536 header words x all 65536 low argument halves (upper half 0) plus all words x {each single upper bit, 0xffff, 16 seed-chosen upper halves} x 64 low patterns; set_opcode/set_rcode: all words x all 256 arguments; set_response (method and associated function): all words x {true,false}; set_tid: all words x 8 ids; on two base packets (with and without OPT); distinct classes = (setter, whether a bit outside the field was at stake, argument class)",
+        rule: "set_flags: all 65536 header words x all 65536 low argument halves (upper half 0) plus all words x {each single upper bit, 0xffff, 16 seed-chosen upper halves} x 64 low patterns; set_opcode/set_rcode: all words x all 256 arguments; set_response (method and associated function): all words x {true,false}; set_tid: all words x 8 ids; on two base packets (with and without OPT); every ordered pair of 41 setter instances x 40 header words on a freshly parsed packet; distinct classes = (setter, whether a bit outside the field was at stake, argument class)",
         run,
         replay,
         bounds: |_| json!({"header_words": 65536, "set_flags_low_halves": 65536, "upper_halves": 34, "opcode_rcode_args": 256, "tids": 8}),
@@ -186,6 +186,52 @@ fn run(ctx: &mut Ctx, rep: &mut Report) {
             rep.class(&format!("base={} opcode_bits={} rcode_bits={} qr={}", bi, (w & 0x7800 != 0) as u8, (w & 0xf != 0) as u8, (w >> 15)));
         }
     }
+    // two setters in a row on a freshly parsed packet: the second must behave as if the first had never run
+    // (apart from the header word the first one left)
+    {
+        let menu: Vec<Setter> = {
+            let mut m = vec![Setter::Response(true), Setter::Response(false), Setter::ResponseAssoc(true), Setter::ResponseAssoc(false), Setter::Tid(0), Setter::Tid(0xffff)];
+            for v in [0u8, 1, 3, 5, 8, 15, 16, 0x2f, 0x80, 0xf0, 0xff] {
+                m.push(Setter::Opcode(v));
+                m.push(Setter::Rcode(v));
+            }
+            for a in [0u32, 0xffff, 0xffff_ffff, 0x8000, 0x0100, 0x0010, 0x0020, 0x0040, 0x0080, 0x780f, 0x0001_0000, 0x8000_0000, 0x5aa5_a55a] {
+                m.push(Setter::Flags(a));
+            }
+            m
+        };
+        let mut words: Vec<u16> = vec![0, 0xffff, 0x8180, 0x0100, 0x8583, 0x7800, 0x000f, 0x87f0];
+        for b in 0..16 {
+            words.push(1 << b);
+            words.push(!(1u16 << b));
+        }
+        let mut gi = 0u64;
+        for (bi, base) in bases().iter().enumerate() {
+            for &w in &words {
+                for s1 in &menu {
+                    gi += 1;
+                    if !ctx.mine(gi) {
+                        continue;
+                    }
+                    for s2 in &menu {
+                        let r = (|| -> Result<(), (String, String)> {
+                            let mut pp = crate::subj::parse(base).map_err(|e| ("setup".to_string(), e))?;
+                            apply(&mut pp, base, w, *s1)?;
+                            let p = pp.packet().to_vec();
+                            let w1 = ((p[2] as u16) << 8) | p[3] as u16;
+                            apply(&mut pp, &p, w1, *s2).map_err(|(sig, what)| (format!("after_{}:{}", format!("{:?}", s1).split('(').next().unwrap_or("").to_lowercase(), sig), format!("after {:?}: {}", s1, what)))
+                        })();
+                        rep.transitions += 2;
+                        if let Err(e) = r {
+                            rep.violation(&e.0, e.1, json!({"base": bi, "word": w, "first": format!("{:?}", s1), "setter": format!("{:?}", s2)}));
+                        }
+                    }
+                    rep.states += 1;
+                }
+            }
+        }
+        rep.class("pairs of setters on a fresh packet");
+    }
     rep.sample(|| json!({"base": hex(&bases()[0]), "word": "0x8180", "setter": "Flags(0x00000100)", "expected_word": "0x0100 | (0x8180 & 0x780f)"}));
     rep.evaluations = rep.transitions;
 }
@@ -212,6 +258,13 @@ fn replay(case: &Value) -> Result<String, String> {
         Some("all") | None => return Ok("journal entry (no single setter)".into()),
         Some(s) => vec![parse_setter(s).ok_or("bad setter")?],
     };
+    let (mut base, mut w) = (base, w);
+    if let Some(first) = case["first"].as_str().and_then(parse_setter) {
+        println!("header word {:04x}, first {:?}", w, first);
+        apply(&mut pp, &base, w, first).map_err(|(sig, what)| format!("[{}] {}", sig, what))?;
+        base = pp.packet().to_vec();
+        w = ((base[2] as u16) << 8) | base[3] as u16;
+    }
     for s in setters {
         println!("header word {:04x}, {:?}", w, s);
         apply(&mut pp, &base, w, s).map_err(|(sig, what)| format!("[{}] {}", sig, what))?;
